@@ -124,6 +124,21 @@ def check_export(case):
     got = ref_matrix(c14.zx_spec_of(back))
     same(got, ref_matrix(without_scalars(spec)), "round-trip",
          "{} -> {}".format(common.show(d), common.show(back)))
+    # phases handed over as exact fractions (or ints) rather than floats
+    from discopy.quantum import zx
+    exact, changed = [], False
+    for bx in d.boxes:
+        if isinstance(bx, (zx.Z, zx.X)) and bx.phase:
+            frac = Fraction(bx.phase).limit_denominator(64)
+            if float(frac) == float(bx.phase):
+                value = int(frac) if frac.denominator == 1 else frac
+                bx = type(bx)(len(bx.dom), len(bx.cod), value)
+                changed = True
+        exact.append(bx)
+    if changed:
+        d2 = Diagram(d.dom, d.cod, exact, d.offsets)
+        same(pyzx_matrix(d2.to_pyzx()), ref, "export-exact-phases",
+             common.show(d2))
     # the exported graph is the caller's to edit (pyzx rewrites graphs in
     # place): exporting an equal diagram afterwards gives a graph of its own
     # with the diagram's matrix
